@@ -606,6 +606,7 @@ func ownClassification(t *lib.Term) bool {
 
 // fmtCompatible: a wrapper chain around a value without redact-specific rendering anywhere.
 func fmtCompatible(t *lib.Term) bool {
+	underUnsafe := t.K == "unsafe" // the outermost wrapper decides
 	for t.K == "safe" || t.K == "unsafe" {
 		t = t.Xs[0]
 	}
@@ -619,8 +620,9 @@ func fmtCompatible(t *lib.Term) bool {
 				if cp == "SF" || cp == "SM" || cp == "FM" || cp == "NILP" {
 					return false
 				}
-				if cp == "ER" && currentHook != "none" {
+				if cp == "ER" && currentHook != "none" && !underUnsafe {
 					return false // with an error hook registered an error is rendered by the hook, not as fmt would
+					// (under Unsafe() the hook is bypassed: the characters are fmt's again)
 				}
 			}
 		}
